@@ -62,7 +62,8 @@ def main(tier, seed):
     nviol = 0
     stats = dict(runs=0, kinds={}, precomputed=0, skipped=0)
     kinds = [("sup", SupervisedOPF), ("semi", SemiSupervisedOPF), ("knn", KNNSupervisedOPF), ("unsup", UnsupervisedOPF)]
-    for metric in metrics:
+    rounds = 1 if tier == "quick" else 4
+    for metric in [m_ for m_ in metrics for _ in range(rounds)]:
         for kname, cls in kinds:
             for pre in (False, True):
                 if pre and kname == "knn":
